@@ -90,3 +90,6 @@ add('C26','model_checking','exhaustive enumeration of (allocation pair x stake-w
 add('C42','model_checking','exhaustive enumeration of block-result histories x every query/sort/page on the real TransactionIndexer vs a filter-and-sort model',
  'All histories of 3 blocks x <=2 (3 thorough) transactions from a 7-kind alphabet at height triples crossing the number-encoding length boundaries, plus 12-transaction blocks, indexed via Index and AddBatch; every hash lookup and every (height | signer | recipient [+height]) x sort x page size x page query compared with the model, including total and page concatenation.',
  'MemDB backend (same iterator contract as goleveldb); 3 colliding addresses; DeleteFromHeight (rollback) not covered.')
+add('C40','model_checking','explicit-state search to the fixpoint over keybase operations on the real in-memory and on-disk keybase vs a map model, plus exhaustive key x passphrase x armor-mutation enumeration on the real armor code',
+ 'Keybase: all operation sequences over 2 fixed + 1 created key x 2 passphrases until no new state appears (27 states), every operation result and in every state List/Get/Export under every passphrase/Sign compared with the model. Armor: 3 keys x 8 passphrases pairwise (right one opens, every other fails) and 19 armor mutations never yield another key.',
+ 'Passphrase/key alphabets are small because scrypt runs unmodified (80 ms per derivation); coinbase cache not part of the model.')
